@@ -153,14 +153,14 @@ def text_pool(r, x, thorough, pgn=None):
         # text outside ASCII (carried as UCS-2): UTF-8 forms that end exactly at / just below the capacity of the application's buffer
         # with a 2- or 3-byte character, and mixtures
         for L in sorted({cap, cap - 1, cap - 2, cap // 2, 5}):
-            for last in ('\u00e4', '\u6c34'):
+            for last in ('\u00e4', '\u6c34', '\u0416', '\u07ff'):
                 n = L - len(last.encode())
                 if n >= 0:
                     out.append((rand_text(r, n, 'ABCDEFGHIJKLMNOPQRSTUVWXYZ') + last).encode())
         for _ in range(3 if not thorough else 30):
             t = ''
             while len(t.encode()) < cap - 3 and r.random() < 0.9:
-                t += r.choice(['a', 'B', '7', ' ', '\u00f6', '\u00c5', '\u6d77', '\u20ac'])
+                t += r.choice(['a', 'B', '7', ' ', '\u00f6', '\u00c5', '\u6d77', '\u20ac', '\u0080', '\u03a9', '\u0416', '\u05e9', '\u0641', '\u07ff', '\u0800', '\ufffd'])
             out.append(t.encode())
     return out
 
